@@ -55,10 +55,11 @@ Qed.
 Section Nq.
   Variable node : Type.
   Variable pmatch : N -> node -> bool.
+  Variable pa : bool.
 
-  Notation tmatch := (tmatch node pmatch).
-  Notation ok := (ok node pmatch).
-  Notation nq_step := (nq_step node pmatch).
+  Notation ematch := (ematch node pmatch pa).
+  Notation ok := (ok node pmatch pa).
+  Notation nq_step := (nq_step node pmatch pa).
 
   Fixpoint first_ok (mode : option N) (n : node) (l : list entry) : option entry :=
     match l with
@@ -67,10 +68,10 @@ Section Nq.
     end.
 
   Lemma find_in_list_first_ok : forall l mode n,
-    find_in_list node pmatch l mode n = option_map e_tmpl (first_ok mode n l).
+    find_in_list node pmatch pa l mode n = option_map e_tmpl (first_ok mode n l).
   Proof.
     induction l as [|e r IH]; intros; cbn [TmplDefs.find_in_list first_ok]; [reflexivity|].
-    unfold TmplSelect.ok. destruct (mode_eqb mode (t_mode (e_tmpl e)) && tmatch (e_tmpl e) n); [reflexivity | apply IH].
+    unfold TmplSelect.ok. destruct (mode_eqb mode (t_mode (e_tmpl e)) && ematch e n); [reflexivity | apply IH].
   Qed.
 
   Lemma first_ok_app : forall mode n l e,
@@ -102,30 +103,29 @@ Section Nq.
     | Some f => exists b, nq_best st = Some (b, prio_or_default f) /\
                           match nq_conf st with [] => b = f | c :: _ => c = f end
     end /\
-    (forall p, nq_prev st = Some p -> In p pre).
+    (forall p m, nq_prev st = Some (p, m) ->
+       In p pre /\ mode_eqb mode (t_mode (e_tmpl p)) = true /\ (m = true -> ok mode n p = true)).
 
   Definition skip_test (st : nq_state) (e : entry) : bool :=
     match nq_prev st with
-    | Some p => template_eqb (e_tmpl p) (e_tmpl e)
+    | Some (p, m) => template_eqb (e_tmpl p) (e_tmpl e) && (negb pa || m)
     | None => false
     end.
 
   Definition nq_exam (n : node) (st : nq_state) (e : entry) : nq_state :=
-    match first_matching node pmatch (t_alts (e_tmpl e)) n with
-    | None => {| nq_best := nq_best st; nq_conf := nq_conf st; nq_prev := Some e |}
-    | Some _ =>
+    if ematch e n then
         let pr := prio_or_default e in
         match nq_best st with
-        | None => {| nq_best := Some (e, pr); nq_conf := []; nq_prev := Some e |}
+        | None => {| nq_best := Some (e, pr); nq_conf := []; nq_prev := Some (e, true) |}
         | Some (b, pb) =>
-            if pb <? pr then {| nq_best := Some (e, pr); nq_conf := []; nq_prev := Some e |}
+            if pb <? pr then {| nq_best := Some (e, pr); nq_conf := []; nq_prev := Some (e, true) |}
             else if pr =? pb then
               {| nq_best := Some (e, pr);
                  nq_conf := conf_add_if_absent (nq_conf st) b ++ [e];
-                 nq_prev := Some e |}
-            else {| nq_best := nq_best st; nq_conf := nq_conf st; nq_prev := Some e |}
+                 nq_prev := Some (e, true) |}
+            else {| nq_best := nq_best st; nq_conf := nq_conf st; nq_prev := Some (e, true) |}
         end
-    end.
+    else {| nq_best := nq_best st; nq_conf := nq_conf st; nq_prev := Some (e, false) |}.
 
   Lemma nq_step_unfold : forall mode n st e,
     nq_step mode n st e =
@@ -141,30 +141,31 @@ Section Nq.
   Proof.
     intros mode n st pre e [Hb Hp] Hge Em. unfold nq_inv. rewrite first_ok_app.
     assert (He : In e (pre ++ [e])) by (apply in_app_iff; right; left; reflexivity).
-    unfold nq_exam, TmplSelect.ok. rewrite Em. cbn [andb]. unfold TmplDefs.tmatch.
-    destruct (first_matching node pmatch (t_alts (e_tmpl e)) n) as [a|] eqn:Ea.
+    assert (Hoke : ok mode n e = ematch e n) by (unfold TmplSelect.ok; rewrite Em; reflexivity).
+    unfold nq_exam. rewrite Hoke.
+    destruct (ematch e n) eqn:Ea.
     2:{ cbn [nq_best nq_conf nq_prev]. split.
       - destruct (first_ok mode n pre); exact Hb.
-      - intros p Hpp. inversion Hpp; subst. exact He. }
+      - intros p m Hpp. inversion Hpp; subst. split; [exact He|]. split; [exact Em | discriminate]. }
     cbv zeta.
+    assert (Hprev : forall p m, Some (e, true) = Some (p, m) ->
+              In p (pre ++ [e]) /\ mode_eqb mode (t_mode (e_tmpl p)) = true /\ (m = true -> ok mode n p = true)).
+    { intros p m Hpp. inversion Hpp; subst. split; [exact He|]. split; [exact Em|]. intros _. rewrite Hoke. reflexivity. }
     destruct (first_ok mode n pre) as [f|] eqn:Ef.
     - destruct Hb as [b [Hbest Hconf]]. rewrite Hbest.
       destruct (first_ok_in _ _ _ _ Ef) as [Hfin _].
       pose proof (Hge f Hfin) as Hfe. unfold ge_entry in Hfe.
       destruct (prio_or_default f <? prio_or_default e) eqn:E1; [lia|].
       destruct (prio_or_default e =? prio_or_default f) eqn:E2.
-      + cbn [nq_best nq_conf nq_prev]. split.
-        * exists e. split; [f_equal; f_equal; lia|].
-          unfold conf_add_if_absent. destruct (nq_conf st) as [|c r] eqn:Ec.
-          -- cbn. subst b. reflexivity.
-          -- destruct (existsb (fun x => (e_pos x =? e_pos b)%N) (c :: r)); cbn; exact Hconf.
-        * intros p Hpp. inversion Hpp; subst. exact He.
-      + cbn [nq_best nq_conf nq_prev]. split.
-        * exists b. split; [reflexivity | exact Hconf].
-        * intros p Hpp. inversion Hpp; subst. exact He.
-    - destruct Hb as [Hbest Hconf]. rewrite Hbest. cbn [nq_best nq_conf nq_prev]. split.
-      + exists e. split; reflexivity.
-      + intros p Hpp. inversion Hpp; subst. exact He.
+      + cbn [nq_best nq_conf nq_prev]. split; [|exact Hprev].
+        exists e. split; [f_equal; f_equal; lia|].
+        unfold conf_add_if_absent. destruct (nq_conf st) as [|c r] eqn:Ec.
+        * cbn. subst b. reflexivity.
+        * destruct (existsb (fun x => (e_pos x =? e_pos b)%N) (c :: r)); cbn; exact Hconf.
+      + cbn [nq_best nq_conf nq_prev]. split; [|exact Hprev].
+        exists b. split; [reflexivity | exact Hconf].
+    - destruct Hb as [Hbest Hconf]. rewrite Hbest. cbn [nq_best nq_conf nq_prev]. split; [|exact Hprev].
+      exists e. split; reflexivity.
   Qed.
 
   Lemma nq_step_inv : forall mode n st pre e,
@@ -179,18 +180,23 @@ Section Nq.
       assert (Hok : ok mode n e = false) by (unfold TmplSelect.ok; rewrite Em; reflexivity).
       rewrite Hok. split.
       - destruct (first_ok mode n pre); exact Hb.
-      - intros p Hpp. auto. }
+      - intros p m Hpp. destruct (Hp p m Hpp) as (h1 & h2 & h3). auto. }
     destruct (skip_test st e) eqn:Es; [|apply nq_exam_inv; assumption].
     (* skipped: the previously examined entry belongs to the same template *)
     destruct Hi as [Hb Hp]. unfold nq_inv. rewrite first_ok_app.
-    unfold skip_test in Es. destruct (nq_prev st) as [p|] eqn:Ep; [|discriminate].
-    apply template_eqb_eq in Es.
-    pose proof (Hp p eq_refl) as Hpin.
+    unfold skip_test in Es. destruct (nq_prev st) as [[p m]|] eqn:Ep; [|discriminate].
+    apply andb_true_iff in Es. destruct Es as [Et Ev].
+    apply template_eqb_eq in Et.
+    destruct (Hp p m eq_refl) as (Hpin & Hpm & Hpok).
     split.
     - destruct (first_ok mode n pre) eqn:Ef; [exact Hb|].
       pose proof (first_ok_none _ _ _ _ Ef Hpin) as Hokp.
-      unfold TmplSelect.ok in Hokp |- *. rewrite Es in Hokp. rewrite Hokp. exact Hb.
-    - intros q Hq. auto.
+      destruct pa eqn:Epa.
+      + (* per-alternative: the previous entry matched, so there is a first hit already *)
+        cbn in Ev. subst m. rewrite (Hpok eq_refl) in Hokp. discriminate.
+      + (* whole pattern: the same test again *)
+        unfold TmplSelect.ok, TmplDefs.ematch in Hokp |- *. rewrite Et in Hokp. rewrite Hokp. exact Hb.
+    - intros q mq Hq. destruct (Hp q mq Hq) as (h1 & h2 & h3). auto.
   Qed.
 
   Lemma nq_fold_inv : forall mode n l pre st,
@@ -212,12 +218,12 @@ Section Nq.
   (* on a sorted list the conflict-reporting scan returns what the quiet scan returns *)
   Lemma nq_eq_quiet_list : forall l mode n,
     StronglySorted ge_entry l ->
-    find_in_list_nq node pmatch l mode n = find_in_list node pmatch l mode n.
+    find_in_list_nq node pmatch pa l mode n = find_in_list node pmatch pa l mode n.
   Proof.
     intros l mode n Hs. rewrite find_in_list_first_ok. unfold TmplDefs.find_in_list_nq.
     pose proof (nq_fold_inv mode n l [] {| nq_best := None; nq_conf := []; nq_prev := None |}) as H.
     cbn [app] in H. destruct H as [H _]; [|exact Hs|].
-    - split; [cbn; split; reflexivity | intros p Hp; discriminate].
+    - split; [cbn; split; reflexivity | intros p m Hp; discriminate].
     - destruct (first_ok mode n l) as [f|].
       + destruct H as [b [Hb Hc]]. rewrite Hb.
         destruct (nq_conf _) as [|c r]; cbn; congruence.
